@@ -44,12 +44,12 @@ claim('C05', 'loop classification over MIR natural loops (float-accumulator abso
       'Decides two clauses for every loop and every guard site of the crate: float-only-exit loops cannot stall (f32 additive '
       'accumulators need a progress guard; shrink loops need an integer-derived start), and no RefCount guard conflict exists '
       '(RefCell panic); the asserted mania column search over the whole range excluding only prev_pattern is called only where a free column is '
-      'established; every clamp(lo, hi) with a non-constant bound has lo <= hi established (dominating comparison, shifted copies of one value, or a non-negative-by-construction upper bound). A loop that stalls only above 2^24*step ms is unreachable for the fixture maps. All other panic/hang corners '
+      'established; every clamp(lo, hi) with a non-constant bound has lo <= hi established (dominating comparison, shifted copies of one value, or a non-negative-by-construction upper bound); the mania column bit set is wide enough for the largest column count target_columns can return (interval evaluation over constants). A loop that stalls only above 2^24*step ms is unreachable for the fixture maps. All other panic/hang corners '
       'are numeric and not decided.',
       'IEEE-754 absorption argument; f64 accumulators accepted under the decoder magnitude bound; one frozen guard exception '
       '(find_repetition_interval, acyclic prev chain)', 'DESIGN.md §5 C05')
 claim('C12', 'provenance with closure / Option-combinator expansion (clamp reachability), sibling field-map comparison',
-      'Decides five clauses: calculate() = generate_state() + calculator; provided misses and provided combo reach the state only '
+      'Decides six clauses: Performance::state hands over every field of the ScoreState; calculate() = generate_state() + calculator; provided misses and provided combo reach the state only '
       'below min(_, bound) in every mode; the 8 ScoreState conversions are mutually inverse permutations; state(), the write-back of '
       'generate_state() and the single setters agree on one field map (24 rows); no remainder in generate_state takes the misses off the object count '
       'more than once (linear forms over object count and clamped misses). The rest of the remainder arithmetic is not decided.',
@@ -59,12 +59,12 @@ claim('C10', 'per-configuration type check + configuration-independent body fing
       'Decides the structural part: all four feature combinations build; every body that differs between configurations lies inside '
       'util::strains_vec / util::sync (a cfg(feature)/cfg!(feature) elsewhere shows up as a differing fingerprint of the resolved '
       'program, not as a grep hit); guard discipline is identical and conflict-free under RefCell and RwLock; both push bodies normalise alike and record one '
-      'section per call; sum / iter / into_vec / clone of both bodies traverse the whole list; nobody asks len()/iter() after a shrink that leaves the compact body\'s separate count stale (within a function, or across calls for a list kept in a field). The default-feature suite '
+      'section per call; sum / iter / into_vec / clone of both bodies traverse the whole list; nobody asks len()/iter() after a shrink that leaves the compact body\'s separate count stale (within a function, or across calls for a list kept in a field); what differs inside util::sync is a straight-line wrapper of the primitive only. The default-feature suite '
       'never compiles the other three configurations. Numerical equivalence of the two StrainsVec bodies is NOT decided.',
       'cargo +nightly check per configuration; fingerprint ignores local types and generic arguments by design', 'DESIGN.md §5 C10')
 claim('C11', 'unsafe-operation inventory from MIR with one obligation rule per kind: typestate dataflow, dominating-guard facts, who-may-write index, call-graph reachability, provenance',
       'Every unsafe operation in user-written unsafe code (17 in the default build) is matched to a rule and the obligation is checked at the '
-      'site on all paths; unknown kinds are reported; every borrow source of a lifetime-extended value lives in the same struct. Two obligations (count<=len in copy_slice, Vec<StrainsEntry>~Vec<f64> layout) are '
+      'site on all paths; unknown kinds are reported; every borrow source of a lifetime-extended value lives in the same struct and the owner is frozen in the constructor once the lifetime is extended. Two obligations (count<=len in copy_slice, Vec<StrainsEntry>~Vec<f64> layout) are '
       'recorded as assumed, which is why the level is `other` and not proof. Miri-style tests only see executed paths; these rules '
       'quantify over all paths, callers and configurations.',
       'Safety contracts as written in the source; Rust aliasing model; compiler-generated unsafe is trusted', 'DESIGN.md §5 C11')
@@ -81,28 +81,28 @@ claim('C04', 'provenance of attribute sources, who-may-write on calculator attri
       'no difficulty entry point returns attributes that did not go through the calculation. Numeric equality of the two paths is not decided.', 'exported MIR', 'DESIGN.md §5 C04')
 claim('C06', 'call-graph-scoped decoder discipline: bounded-parse dominance, clamp provenance, tandem-sort pairing, who-may-write on control point vectors, panic-API reachability',
       'Decides the decoder discipline on every function reachable from the 11 parse_* methods and From<BeatmapState>: raw primitive parses are bound-tested '
-      'before use, the documented clamps are present on the produced fields and no clamp is fed by the NaN-tolerant parse without a NaN-excluding fact, objects and sounds are permuted by one time-comparator sorter and pushed in '
+      'before use, the documented clamps are present on the produced fields and no clamp is fed by the NaN-tolerant parse without a NaN-excluding fact, objects and sounds are permuted by one time-comparator sorter on every path through the constructor and pushed in '
       'pairs, control point vectors change only through the binary-search add, no explicit panic API, entry points are pure delegations (or the same decode over a reader built from the parameter alone). '
       'Arithmetic Assert terminators and rosu-map internals are not covered.',
       'rosu-map 0.2.1 line driver and ParseNumber trusted', 'DESIGN.md §5 C06')
 claim('C08', 'arm summaries of representation matches with identifiers resolved against rosu-mods\' own constant table; who-may-call / who-may-read',
       'Decides that the three mod representations answer alike arm by arm (14 has-mod accessors, 29 key-mod rows, HardRock reflection; legacy `false` allowed '
       'iff GameModsLegacy has no such flag), that no accessor lets the iteration order of the mod collection decide between mutually exclusive mod '
-      'families (rate mods, HR/EZ), that mod-derived clock rate / attribute values are reachable only through the override-aware getters, and that every attribute-builder chain a calculator drives to build()/hit_windows() goes through .difficulty(..) with no setting setter before it. '
+      'families (rate mods, HR/EZ), that mod-derived clock rate / attribute values are reachable only through the override-aware getters, and that every attribute-builder chain a calculator drives to build()/hit_windows() goes through .difficulty(..) with no setting setter before it, and that the representation of GameMods is inspected only inside model::mods. '
       'Numerical equality and lazer per-mod settings are not decided.', 'rosu-mods 0.3.1 semantics of contains/contains_intermode', 'DESIGN.md §5 C08')
 claim('C14', 'provenance of is_convert in every attribute construction (interprocedural through helpers) + who-may-write on Beatmap.is_convert',
-      'Decides the is_convert clause (attributes report exactly the converted map\'s flag and only the converters set it, each with its own mode) and four counting-shape clauses: osu! kinds '
+      'Decides the is_convert clause (attributes report exactly the converted map\'s flag and only the converters set it, each with its own mode and on every path through the converter) and four counting-shape clauses: osu! kinds '
       'are counted by exactly one counter each and alike in both paths, passed_objects(n) records and returns n, mania hold notes are counted by object kind alone (path by path), the taiko one-shot counter sees every object its iterator yields (adaptor in front of every truncation, or counted on every path from next() to a return). '
       'All other counting clauses are arithmetic over runtime values and not decided.', 'exported MIR', 'DESIGN.md §5 C14')
 claim('C15', 'delegation shape check (single call, parameter pass-through, constants) and arm summaries of the enum wrappers',
       'Decides the delegation clauses: next = nth(0), last = nth(usize::MAX), len = inner len, 24 wrapper arms forward to the same-named payload method '
       'and re-wrap in their own variant, size_hint = (len, Some(len)); len() consults every collection whose emptiness ends next() and measures the collection '
-      'that terminates it; nth past the end is a guarded None; the caller\'s n enters overflow-capable arithmetic only after being bounded; the bulk step of nth() feeds the same skills as next() under the same conditions; nth\'s n >= len() branch drains or jumps exactly to the end len() measures; helper parameters are asked with positions or step counts, never both. '
+      'that terminates it; nth past the end is a guarded None; the caller\'s n enters overflow-capable arithmetic only after being bounded; the bulk step of nth() feeds the same skills as next() under the same conditions; nth\'s n >= len() branch drains or jumps exactly to the end len() measures; helper parameters are asked with positions or step counts, never both; a performance nth() answers None only through the inner iterator. '
       'nth(n) = n+1 nexts is not decided. One known finding (taiko len/next mismatch on tiny maps).', 'exported MIR', 'DESIGN.md §5 C15')
 claim('C16', 'evaluated associated constants at use sites (loop step of the section accumulator), provenance of exported peaks, sibling preprocessing rule',
       'Decides: the section length each of the 9 skills really advances by equals its mode\'s published SECTION_LEN (inherent shadowing resolved by rustc, '
       'not by name); export and aggregation both close the open section through get_current_strain_peaks; strains() runs the same '
-      'DifficultyValues::calculate on the same preprocessed map as difficulty(); the section operations of every process() depend on object times and the section end only, never on the skill\'s own strain state. Finiteness and the numeric re-aggregation identity are not decided.',
+      'DifficultyValues::calculate on the same preprocessed map as difficulty(); the section operations of every process() depend on object times and the section end only, never on the skill\'s own strain state; whoever feeds several skills feeds them under the same conditions. Finiteness and the numeric re-aggregation identity are not decided.',
       'exported MIR + const evaluation', 'DESIGN.md §5 C16')
 claim('C17', 'provenance from builder output to calculator fields; setter/getter/output slot triangle by read-set of self fields',
       'Decides the flow clauses: build() embeds hit_windows(); calculators copy AR/HP/hit windows from the builder configured with the converted map and '
